@@ -181,7 +181,7 @@ static void runSV(Work & w)
     });
   for (int i = 0; i < w.readers; ++i) {
     w.spawn([&](vh::Rng &) {
-        long long n = 0; Thinner th(w.ops / 2);
+        long long n = 0; Thinner th(w.ops / 8);
         while (!w.stop) {th.begin(); inv(LOAD); Pair p = (++n % 2) ? sv.load() : static_cast<Pair>(sv); res(LOAD, p.a, p.b != ~p.a); th.end(false);}
       });
   }
@@ -200,7 +200,7 @@ static void runSVW(Work & w)
     });
   for (int i = 0; i < w.readers; ++i) {
     w.spawn([&](vh::Rng &) {
-        long long n = 0; Thinner th(w.ops / 2);
+        long long n = 0; Thinner th(w.ops / 8);
         while (!w.stop) {th.begin(); inv(LOAD); long long v = (++n % 2) ? sv.load() : static_cast<long long>(sv); res(LOAD, v, 0); th.end(false);}
       });
   }
@@ -223,7 +223,7 @@ static void runSOV(Work & w)
   }
   for (int c = 0; c < consumers; ++c) {
     w.spawn([&](vh::Rng &) {
-        Thinner th(w.ops / 2);
+        Thinner th(w.ops / 8);
         while (!w.stop) {th.begin(); inv(CONSUME); auto v = sov.consume(); res(CONSUME, v ? *v : 0); th.end(v.has_value());}
       });
   }
@@ -258,7 +258,7 @@ static void runStats(Work & w, bool var)
     });
   for (int i = 0; i < w.readers; ++i) {
     w.spawn([&, i](vh::Rng & r) {
-        Thinner th(w.ops / 2);
+        Thinner th(w.ops / 8);
         while (!w.stop) {
           th.begin();
           int what = (int)r.range(0, var ? 2 : 1);
@@ -307,7 +307,7 @@ static void runCheckup(Work & w, const std::string & ck, bool hasTimeout)
     });
   for (int i = 0; i < w.readers; ++i) {
     w.spawn([&](vh::Rng &) {
-        Thinner th(w.ops / 2);
+        Thinner th(w.ops / 8);
         while (!w.stop) {
           th.begin();
           inv(GETREPORT);
@@ -351,7 +351,7 @@ static void runRM(Work & w)
     });
   for (int i = 0; i < std::max(1, w.readers); ++i) {
     w.spawn([&](vh::Rng & r) {
-        Thinner th(w.ops / 2);
+        Thinner th(w.ops / 8);
         while (!w.stop) {
           long long at = w.lastStamp + r.pick(std::vector<long long>{0, 100, 499, 500, 501, 900, 3000});
           th.begin(); inv(HB, at); bool to = rm->timeout(durationFromMilliSecond(at)); res(HB, to); th.end(to);
@@ -374,7 +374,7 @@ static void runRC(Work & w, const std::string & ck)
       stampLoop(w, r, [&](Duration d) {return (long long)(int)rc->evaluate(d);});
     });
   w.spawn([&](vh::Rng & r) {
-      Thinner th(w.ops / 2);
+      Thinner th(w.ops / 8);
       while (!w.stop) {
         long long at = w.lastStamp + r.pick(std::vector<long long>{0, 100, 499, 500, 501, 900, 3000});
         th.begin(); inv(HB, at); bool ok = rc->heartBeatCallback(durationFromMilliSecond(at)); res(HB, !ok); th.end(!ok);
@@ -382,7 +382,7 @@ static void runRC(Work & w, const std::string & ck)
     });
   for (int i = 0; i < w.readers; ++i) {
     w.spawn([&](vh::Rng &) {
-        Thinner th(w.ops / 2);
+        Thinner th(w.ops / 8);
         while (!w.stop) {
           th.begin();
           inv(GETREPORT);
